@@ -71,8 +71,9 @@ int main() {
     std::string tag;
     is >> tag;
     // "gs": the same graph with every value divided by 8 (exact dyadic doubles); the answers are printed multiplied by 8
-    const double scale = (tag == "gs") ? 8.0 : 1.0;
-    if (tag != "g" && tag != "gs") { vh::emit("BADLINE"); continue; }
+    // "gt" / "gh": the same in a very large / very small unit (values times 2^-60 / 2^40: exact, the property is scale invariant)
+    const double scale = (tag == "gs") ? 8.0 : (tag == "gt") ? std::ldexp(1.0, 60) : (tag == "gh") ? std::ldexp(1.0, -40) : 1.0;
+    if (tag != "g" && tag != "gs" && tag != "gt" && tag != "gh") { vh::emit("BADLINE"); continue; }
     std::vector<Edge> edges;
     std::map<std::pair<int, int>, int> index;
     long long u, v, w;
